@@ -407,10 +407,13 @@ def count_cases():
     FAST = ("i32", "quoted", "f32", "id")
     ALL3 = (1023, 1024, 1025)
     REST = SMALL + [4096]
+    # the loops of the fast paths start after the first one / two elements: a bound of 2^k rounds inside such a loop is
+    # first exceeded at 2^k + 2 or 2^k + 3 elements
+    OFF = [258, 259, 1026, 1027, 4098, 4099]
     for k in FAST:
-        S.append(("run", "run_%s_T" % k, (lambda n, k=k: in_ctx("T", b_run(k), n)), MID + HUGE, ALL3))
+        S.append(("run", "run_%s_T" % k, (lambda n, k=k: in_ctx("T", b_run(k), n)), sorted(MID + OFF) + HUGE, ALL3))
         for c in ("Q", "N"):
-            S.append(("run", "run_%s_%s" % (k, c), (lambda n, k=k, c=c: in_ctx(c, b_run(k), n)), MID + (HUGE if k == "i32" else []), ()))
+            S.append(("run", "run_%s_%s" % (k, c), (lambda n, k=k, c=c: in_ctx(c, b_run(k), n)), sorted(MID + OFF) + (HUGE if k == "i32" else []), ()))
         for c in ("U", "I", "V", "F"):
             S.append(("run", "run_%s_%s" % (k, c), (lambda n, k=k, c=c: in_ctx(c, b_run(k), n)), REST, ()))
     for k in ("u32", "u64", "i64", "bool", "unquoted", "f64"):
@@ -471,7 +474,8 @@ def count_cases():
 
 def string_cases():
     out = []
-    lens = [n for n in LADDER if n <= 65535]
+    # u16 length prefix: the ladder cut at 65535, plus the signed-16-bit boundary
+    lens = sorted([n for n in LADDER if n <= 65535] + [32767, 32768])
     def pay(ln, salt):
         return ((PAT[salt % 16:] + PAT) * (ln // 16 + 2))[:ln]
     for pos in ("qkey", "ukey", "qval", "uval", "first", "later", "qobj", "slowval", "mixtail", "keycont", "last"):
